@@ -342,6 +342,53 @@ fn bad_presentations(cx: &mut Cx, f: BlindPres, l: usize, m: usize, verifier: No
             deliver_pres(cx, verifier, g, format!("{}_pair_conflicting_duplicate:{}", if which == 0 { "signer" } else { "committed" }, if before { "before" } else { "after" }), ideal.clone());
         }
     }
+    // the INDEX list alone in another order / one index twice with one message (both lists): see
+    // scen_proof -- a verifier that sorts and de-duplicates the indexes without the messages
+    for which in 0..2u8 {
+        let (idx, ms) = if which == 0 { (inorm(&f.didx).to_vec(), lnorm(&f.dmsgs).to_vec()) } else { (inorm(&f.dcidx).to_vec(), lnorm(&f.dcmsgs).to_vec()) };
+        let n = idx.len();
+        let side = if which == 0 { "didx" } else { "dcidx" };
+        if n >= 2 {
+            let (i, j) = (cx.ch.choose("idx_only_i", n as u64) as usize, cx.ch.choose("idx_only_j", n as u64) as usize);
+            if ms[i] != ms[j] {
+                let mut g = f.clone();
+                let mut a = idx.clone(); a.swap(i, j);
+                if which == 0 { g.didx = Some(a); } else { g.dcidx = Some(a); }
+                cx.count("probe.index_list_reordered_messages_as_given");
+                deliver_pres(cx, verifier, g, format!("{side}_reordered_messages_as_given"), ideal.clone());
+            }
+        }
+        if n >= 1 {
+            let i = cx.ch.choose("idx_dup_only", n as u64) as usize;
+            let mut g = f.clone();
+            let mut a = idx.clone(); a.insert(i, a[i]);
+            if which == 0 { g.didx = Some(a); } else { g.dcidx = Some(a); }
+            deliver_pres(cx, verifier, g, format!("{side}_duplicated_without_its_message"), ideal.clone());
+        }
+    }
+    // Mallory: a disclosed COMMITTED message (chosen by the prover) claimed as a SIGNER message: the
+    // pair (j, c) leaves the committed lists and enters the signer lists as (L + 1 + j, c) -- the
+    // merged position is the honest one, the claim "the signer knew c" is false
+    if let (Some(l), true) = (f.l, !inorm(&f.dcidx).is_empty()) {
+        let mut g = f.clone();
+        let (mut b, mut bm) = (g.dcidx.take().unwrap(), g.dcmsgs.take().unwrap());
+        let (mut a, mut am) = (g.didx.take().unwrap_or_default(), g.dmsgs.take().unwrap_or_default());
+        let (j, c) = (b.pop().unwrap(), bm.pop().unwrap());
+        a.push(l + 1 + j); am.push(c);
+        g.didx = Some(a); g.dmsgs = Some(am); g.dcidx = Some(b); g.dcmsgs = Some(bm);
+        cx.count("probe.committed_message_claimed_as_signer_message");
+        deliver_pres(cx, verifier, g, "forged:committed_message_claimed_through_signer_index_beyond_L".into(), ideal.clone());
+    }
+    // ... and the same message moved across the boundary of the two MESSAGE lists only (indexes
+    // untouched): the concatenation the verifier hashes is the honest one, the two lists are not
+    if !lnorm(&f.dcmsgs).is_empty() {
+        let mut g = f.clone();
+        let mut bm = g.dcmsgs.take().unwrap();
+        let mut am = g.dmsgs.take().unwrap_or_default();
+        am.push(bm.remove(0));
+        g.dmsgs = Some(am); g.dcmsgs = Some(bm);
+        deliver_pres(cx, verifier, g, "forged:message_moved_across_the_list_boundary".into(), ideal.clone());
+    }
     // a disclosed signer message presented as a disclosed committed message and vice versa
     if !inorm(&f.didx).is_empty() {
         let mut g = f.clone();
